@@ -149,71 +149,7 @@ pub proof fn lemma_nested(nodes: Seq<TrieNode>, d: Seq<nat>, vocab: u32, j: int,
     }
 }
 
-// ---------------------------------------------------------------- RecModel
-/// The Recognizer trait of toktree.rs with the RecModel contract (signatures checked against /repo below).
-/// `stack()` = bytes pushed since trie_started, `ok(s)` = "pushing the bytes of s one by one from the state at
-/// trie_started succeeds"; `started_ok` = the acceptance function that trie_started will install.
-pub trait Recognizer {
-    spec fn stack(&self) -> Seq<u8>;
-    spec fn ok(&self, s: Seq<u8>) -> bool;
-    spec fn started_ok(&self, s: Seq<u8>) -> bool;
-    /// no walk in progress (the state trie_finished leaves behind)
-    spec fn fresh(&self) -> bool;
-    /// representation invariant of the implementor (e.g. FixedRecognizer: bytes_ptr <= |bytes|)
-    spec fn rinv(&self) -> bool;
-
-    fn pop_bytes(&mut self, num: usize)
-        requires num <= old(self).stack().len(), old(self).rinv(),
-        ensures final(self).rinv(), final(self).stack() == old(self).stack().take(old(self).stack().len() - num),
-            forall|s: Seq<u8>| final(self).ok(s) == old(self).ok(s);
-
-    fn try_push_byte(&mut self, byte: u8) -> (r: bool)
-        requires old(self).rinv(), old(self).ok(old(self).stack()),
-        ensures final(self).rinv(), r == old(self).ok(old(self).stack().push(byte)),
-            final(self).stack() == (if r { old(self).stack().push(byte) } else { old(self).stack() }),
-            forall|s: Seq<u8>| final(self).ok(s) == old(self).ok(s);
-
-    fn trie_started(&mut self, _dbg_lbl: &str)
-        requires old(self).fresh(), old(self).rinv(),
-        ensures final(self).rinv(), final(self).stack() == Seq::<u8>::empty(),
-            forall|s: Seq<u8>| final(self).ok(s) == old(self).started_ok(s),
-            final(self).ok(Seq::<u8>::empty()),
-            forall|s: Seq<u8>, b: u8| final(self).ok(#[trigger] s.push(b)) ==> final(self).ok(s);
-
-    fn trie_finished(&mut self)
-        requires old(self).rinv(),
-        ensures final(self).rinv(), old(self).stack().len() == 0 ==> final(self).fresh(),
-            forall|s: Seq<u8>| final(self).started_ok(s) == old(self).started_ok(s);
-
-    fn save_stats(&mut self, _nodes_walked: usize)
-        ensures final(self).rinv() == old(self).rinv(), final(self).fresh() == old(self).fresh(),
-            forall|s: Seq<u8>| final(self).started_ok(s) == old(self).started_ok(s);
-}
-//@@ sigcheck toktrie/src/toktree.rs trait@Recognizer::pop_bytes :: fn pop_bytes(&mut self, num: usize)
-//@@ sigcheck toktrie/src/toktree.rs trait@Recognizer::try_push_byte :: fn try_push_byte(&mut self, byte: u8) -> bool
-//@@ sigcheck toktrie/src/toktree.rs trait@Recognizer::trie_started :: fn trie_started(&mut self, _dbg_lbl: &str)
-//@@ sigcheck toktrie/src/toktree.rs trait@Recognizer::trie_finished :: fn trie_finished(&mut self)
-//@@ sigcheck toktrie/src/toktree.rs trait@Recognizer::save_stats :: fn save_stats(&mut self, _nodes_walked: usize)
-
-pub open spec fn prefix_closed<R: Recognizer + ?Sized>(r: &R) -> bool {
-    forall|s: Seq<u8>, b: u8| r.ok(#[trigger] s.push(b)) ==> r.ok(s)
-}
-
-pub proof fn lemma_ok_take<R: Recognizer + ?Sized>(r: &R, s: Seq<u8>, k: int)
-    requires prefix_closed(r), r.ok(s), 0 <= k <= s.len(),
-    ensures r.ok(s.take(k)),
-    decreases s.len() - k
-{
-    if k < s.len() {
-        let t = s.take(s.len() - 1);
-        assert(t.push(s[s.len() - 1]) =~= s);
-        assert(r.ok(t));
-        assert(t.take(k) =~= s.take(k));
-        lemma_ok_take(r, t, k);
-    } else {
-        assert(s.take(k) =~= s);
-    }
-}
+//@@ include common/recmodel.vrs
 
 // ---------------------------------------------------------------- the naive definition
 pub open spec fn tokv(n: TrieNode, vocab: u32) -> u32 { if ntok(n) == NO_TOKEN { vocab } else { ntok(n) } }
@@ -230,6 +166,27 @@ pub open spec fn acc<R: Recognizer + ?Sized>(nodes: Seq<TrieNode>, d: Seq<nat>, 
 /// same as `acc`, over the acceptance function that `trie_started` will install
 pub open spec fn accs<R: Recognizer + ?Sized>(nodes: Seq<TrieNode>, d: Seq<nat>, r: &R, s0: Seq<u8>, off: int, p: int, vocab: u32, t: int) -> bool {
     exists|j: int| off < j < p && #[trigger] tokv(nodes[j], vocab) == t && r.started_ok(s0 + rel(nodes, d, off, j))
+}
+
+/// some node in (off, p) carries a real token and all its path bytes below `off` are accepted from s0
+pub open spec fn acc_real<R: Recognizer + ?Sized>(nodes: Seq<TrieNode>, d: Seq<nat>, r: &R, s0: Seq<u8>, off: int, p: int) -> bool {
+    exists|j: int| off < j < p && #[trigger] ntok(nodes[j]) != NO_TOKEN && r.ok(s0 + rel(nodes, d, off, j))
+}
+pub open spec fn accs_real<R: Recognizer + ?Sized>(nodes: Seq<TrieNode>, d: Seq<nat>, r: &R, s0: Seq<u8>, off: int, p: int) -> bool {
+    exists|j: int| off < j < p && #[trigger] ntok(nodes[j]) != NO_TOKEN && r.started_ok(s0 + rel(nodes, d, off, j))
+}
+pub proof fn lemma_accreal_accs<R: Recognizer + ?Sized>(nodes: Seq<TrieNode>, d: Seq<nat>, r1: &R, r0: &R, s0: Seq<u8>, off: int, p: int)
+    requires forall|s: Seq<u8>| r1.ok(s) == r0.started_ok(s),
+    ensures acc_real(nodes, d, r1, s0, off, p) == accs_real(nodes, d, r0, s0, off, p),
+{
+    if acc_real(nodes, d, r1, s0, off, p) {
+        let j = choose|j: int| off < j < p && #[trigger] ntok(nodes[j]) != NO_TOKEN && r1.ok(s0 + rel(nodes, d, off, j));
+        assert(off < j < p && ntok(nodes[j]) != NO_TOKEN && r0.started_ok(s0 + rel(nodes, d, off, j)));
+    }
+    if accs_real(nodes, d, r0, s0, off, p) {
+        let j = choose|j: int| off < j < p && #[trigger] ntok(nodes[j]) != NO_TOKEN && r0.started_ok(s0 + rel(nodes, d, off, j));
+        assert(off < j < p && ntok(nodes[j]) != NO_TOKEN && r1.ok(s0 + rel(nodes, d, off, j)));
+    }
 }
 
 pub proof fn lemma_acc_accs<R: Recognizer + ?Sized>(nodes: Seq<TrieNode>, d: Seq<nat>, r1: &R, r0: &R, s0: Seq<u8>, off: int, p: int, vocab: u32, t: int)
@@ -566,6 +523,151 @@ impl TokTrie {
         assert forall|t: int| t2.has(t) == (t1.has(t) || accs(nd, d, old(r), Seq::<u8>::empty(), k0, k0 + nsize(nd[k0]), vocab, t)) by {
             lemma_acc_accs(nd, d, &r1, old(r), Seq::<u8>::empty(), k0, k0 + nsize(nd[k0]), vocab, t);
         }
+    }
+//@ end
+
+//@@ fn toktrie/src/toktree.rs TokTrie::has_valid_extensions
+//@ ret res
+//@ rewrite R8 :: let mut next_pop = 0; ==> let mut next_pop: usize = 0;
+//@ spec
+    requires self.wf(), old(r).fresh(), old(r).rinv(),
+    ensures
+        // true iff some real token strictly below the node of `start` has all its remaining bytes accepted one after another
+        res == (match self.spec_child(start@) {
+            Some(k) => accs_real(self.nodes@, self.depths(), old(r), Seq::<u8>::empty(), k, k + nsize(self.nodes@[k])),
+            None => false,
+        }),
+        final(r).rinv(),
+//@ body_start
+    let ghost d = self.depths();
+    let ghost nd = self.nodes@;
+    let ghost vocab = self.vocab();
+    proof { assert(trie_wf(nd, d, vocab)); }
+//@ after r.trie_started("has_valid_extensions");
+    let ghost r1 = *r;
+    let ghost s0 = r.stack();
+//@ after let endp = off + n.subtree_size();
+    proof { assert(size_ok(nd, off as int)); }
+//@ after let mut next_pop: usize = 0;
+    proof {
+        if p < endp {
+            assert(deeper(nd, d, off as int, p as int));
+            assert(step_ok(d, p as int));
+            lemma_path_len(nd, d, vocab, off as int);
+            lemma_path_len(nd, d, vocab, p as int);
+            let pp = path(nd, d, p as int).take(d[p as int] - 1);
+            assert(pp.len() == d[off as int]);
+            assert(pp.skip(d[off as int] as int) =~= Seq::<u8>::empty());
+            assert(r.stack().take(r.stack().len() - 0) =~= s0 + pp.skip(d[off as int] as int));
+        }
+        assert(!acc_real(nd, d, &r1, s0, off as int, p as int));
+    }
+//@ loop 1
+        invariant_except_break
+            off + 1 <= p <= endp,
+            p < endp ==> next_pop <= r.stack().len(),
+            p < endp ==> r.stack().take(r.stack().len() - next_pop) == s0 + path(nd, d, p as int).take(d[p as int] - 1).skip(d[off as int] as int),
+            p < endp ==> r.ok(r.stack().take(r.stack().len() - next_pop)),
+            !ok,
+            !acc_real(nd, d, &r1, s0, off as int, p as int),
+        invariant
+            trie_wf(nd, d, vocab), nd == self.nodes@, vocab == self.vocab(), d == self.depths(),
+            off < nd.len(), endp == off + nsize(nd[off as int]), endp <= nd.len(),
+            r.rinv(), r.ok(r.stack()),
+            prefix_closed(r), forall|s: Seq<u8>| r.ok(s) == r1.ok(s), r1.ok(s0), s0 == r1.stack(),
+        ensures
+            ok == acc_real(nd, d, &r1, s0, off as int, endp as int),
+            r.rinv(),
+        decreases endp - p,
+//@ before r.pop_bytes(next_pop);
+            let ghost pi = p as int;
+            let ghost oi = off as int;
+//@ after let b = n.byte();
+            let ghost s1 = r.stack();
+            let ghost pp = path(nd, d, pi).take(d[pi] - 1);
+            proof {
+                assert(*n == nd[pi]);
+                assert(size_ok(nd, pi)); assert(size_ok(nd, oi));
+                assert(deeper(nd, d, oi, pi));
+                assert(step_ok(d, pi));
+                lemma_desc_path(nd, d, vocab, oi, pi);
+                lemma_path_len(nd, d, vocab, pi);
+                lemma_path_len(nd, d, vocab, oi);
+                lemma_nested(nd, d, vocab, oi, pi);
+                assert(s1 == s0 + pp.skip(d[oi] as int));
+                assert(path(nd, d, pi) =~= pp.push(b));
+                assert(s1.push(b) =~= s0 + rel(nd, d, oi, pi));
+            }
+//@ then_start if n.token_id().is_some()
+                    proof {
+                        assert(ntok(nd[pi]) != NO_TOKEN && r1.ok(s0 + rel(nd, d, oi, pi)));
+                        assert(oi < pi < endp as int);
+                        assert(acc_real(nd, d, &r1, s0, oi, endp as int));
+                    }
+//@ then_end if r.try_push_byte(b)
+                proof {
+                    let s2 = r.stack();
+                    assert(s2 == s1.push(b));
+                    assert(!acc_real(nd, d, &r1, s0, oi, pi + 1)) by {
+                        if acc_real(nd, d, &r1, s0, oi, pi + 1) {
+                            let j = choose|j: int| oi < j < pi + 1 && #[trigger] ntok(nd[j]) != NO_TOKEN && r1.ok(s0 + rel(nd, d, oi, j));
+                            if j < pi { assert(acc_real(nd, d, &r1, s0, oi, pi)); }
+                        }
+                    }
+                    let q = p as int;
+                    if q < endp {
+                        assert(step_ok(d, q));
+                        assert(deeper(nd, d, oi, q));
+                        lemma_path_len(nd, d, vocab, q);
+                        let pq = path(nd, d, q).take(d[q] - 1);
+                        assert(pq =~= path(nd, d, pi).take(d[q] - 1));
+                        if nsize(nd[pi]) == 1 {
+                            assert(next_ok(nd, d, pi));
+                            assert(np_ok(nd, d, pi));
+                            assert(s2.take(s2.len() - next_pop) =~= s0 + pq.skip(d[oi] as int));
+                            lemma_ok_take(&*r, s2, s2.len() - next_pop);
+                        } else {
+                            assert(deeper(nd, d, pi, q));
+                            assert(s2.take(s2.len() - next_pop) =~= s0 + pq.skip(d[oi] as int));
+                            assert(s2.take(s2.len() - next_pop) =~= s2);
+                        }
+                    }
+                }
+//@ else_end if r.try_push_byte(b)
+                proof {
+                    let q = p as int;
+                    assert(!r1.ok(s0 + rel(nd, d, oi, pi)));
+                    assert(np_ok(nd, d, pi));
+                    assert(!acc_real(nd, d, &r1, s0, oi, q)) by {
+                        if acc_real(nd, d, &r1, s0, oi, q) {
+                            let j = choose|j: int| oi < j < q && #[trigger] ntok(nd[j]) != NO_TOKEN && r1.ok(s0 + rel(nd, d, oi, j));
+                            if j >= pi {
+                                lemma_desc_path(nd, d, vocab, pi, j);
+                                let full = s0 + rel(nd, d, oi, j);
+                                lemma_ok_take(&*r, full, s0.len() + d[pi] - d[oi]);
+                                assert(full.take(s0.len() + d[pi] - d[oi]) =~= s0 + rel(nd, d, oi, pi));
+                            } else {
+                                assert(acc_real(nd, d, &r1, s0, oi, pi));
+                            }
+                        }
+                    }
+                    if q < endp {
+                        assert(next_ok(nd, d, pi));
+                        assert(step_ok(d, q));
+                        assert(deeper(nd, d, oi, q));
+                        lemma_path_len(nd, d, vocab, q);
+                        lemma_desc_path(nd, d, vocab, pi, q - 1);
+                        let pq = path(nd, d, q).take(d[q] - 1);
+                        assert(pq =~= path(nd, d, pi).take(d[q] - 1));
+                        assert(s1.take(s1.len() - next_pop) =~= s0 + pq.skip(d[oi] as int));
+                        lemma_ok_take(&*r, s1, s1.len() - next_pop);
+                    }
+                }
+//@ before r.trie_finished();
+    proof {
+        let k0 = off as int;
+        assert(self.spec_child(start@) == Some(k0));
+        lemma_accreal_accs(nd, d, &r1, old(r), Seq::<u8>::empty(), k0, k0 + nsize(nd[k0]));
     }
 //@ end
 }
